@@ -201,6 +201,19 @@ def run_stream(stream, n, tier, seed, workdir, replay=None, extra_q=(), extra_ar
     files = sorted(glob.glob(os.path.join(workdir, "cases_*.v")))
     t1 = time.time()
     mism, errs = [], []
+    # shared per-package definitions (schema, enum tables) are compiled first, once
+    pre = sorted(glob.glob(os.path.join(workdir, "sch_*.v")))
+    if pre:
+        def comp(f):
+            cmd = ["timeout", "1800", "coqc", "-Q", os.path.join(COQ, "theories"), "Ygot"]
+            for q in extra_q:
+                cmd += ["-Q", q[0], q[1]]
+            p2 = subprocess.run(cmd + [os.path.basename(f)], cwd=workdir, stdout=subprocess.PIPE, stderr=subprocess.STDOUT, text=True)
+            return (f, p2.returncode, p2.stdout[-800:])
+        with concurrent.futures.ThreadPoolExecutor(max_workers=14) as ex:
+            for f, rc, out in ex.map(comp, pre):
+                if rc != 0:
+                    errs.append("%s: %s" % (os.path.basename(f), out))
     with concurrent.futures.ThreadPoolExecutor(max_workers=14) as ex:
         for r in ex.map(lambda f: run_case_file(f, extra_q), files):
             if r["error"]:
